@@ -280,6 +280,12 @@ func buildRegistration(r *RNG, s *RegSpec) *RegBuilt {
 		case s.Format == "fido-u2f" && s.d("u2f.credNotEC2"):
 			cred = genKeyPair(r, pick(r, []int{algRS256, algEdDSA, algPS256}))
 			s.Algs = allAlgs
+		case s.Format == "fido-u2f" && s.d("u2f.credWiderCurve"):
+			// an EC2 credential key whose coordinates do not fit the 32 bytes the signed data has room for
+			crv := 2 + r.Intn(2)
+			s.CredAlg = []int{0, algES256, algES384, algES512}[crv]
+			cred = genKeyPairOnCurve(r, s.CredAlg, crv, false)
+			s.Algs = allAlgs
 		case s.Format == "fido-u2f":
 			cred = genKeyPairOnCurve(r, s.CredAlg, 1, r.P(1, 4))
 		case kindOfAlg(s.CredAlg) == "ec" && (s.Format == "tpm" || s.Format == "android-key" || s.Format == "apple"):
@@ -316,6 +322,12 @@ func buildRegistration(r *RNG, s *RegSpec) *RegBuilt {
 	key := cred.COSE(s.FixedKey)
 	if s.d("key.unsupported") {
 		key = pick(r, [][]byte{cborMap(cborInt(1), cborInt(4), cborInt(3), cborInt(-7)), cborMap(cborInt(1), cborInt(2), cborInt(3), cborInt(-7), cborInt(-1), cborInt(8), cborInt(-2), cborBytes(r.Bytes(32)), cborInt(-3), cborBytes(r.Bytes(32))), cborBytes([]byte{1, 2}), cborMap()})
+	}
+	var oversizeX []byte
+	if s.d("u2f.coordOversize") && cred.Kind == "ec" {
+		// a key that says P-256 but whose x coordinate needs 33 bytes (the parser does not compare coordinates with the field size)
+		oversizeX = append([]byte{byte(1 + r.Intn(255))}, fixed(cred.EC.X, 32)...)
+		key = cborMap(cborInt(1), cborInt(2), cborInt(3), cborInt(-7), cborInt(-1), cborInt(1), cborInt(-2), cborBytes(oversizeX), cborInt(-3), cborBytes(fixed(cred.EC.Y, 32)))
 	}
 	ad := AuthDataSpec{RPIDHash: sha([]byte(hostOf(s.Origin))), Flags: s.Flags, Counter: s.Counter, AAGUID: s.AAGUID, CredID: s.CredID, Key: key, Ext: s.Ext}
 	if s.Format == "fido-u2f" {
@@ -475,6 +487,9 @@ func buildRegistration(r *RNG, s *RegSpec) *RegBuilt {
 				copy(x, xb)
 				copy(y, yb)
 			}
+			if oversizeX != nil {
+				copy(x, oversizeX) // the leading 32 of its 33 bytes
+			}
 		}
 		msg := []byte{0}
 		msg = append(msg, ad.RPIDHash...)
@@ -487,7 +502,9 @@ func buildRegistration(r *RNG, s *RegSpec) *RegBuilt {
 			msg[1] ^= 1
 		}
 		signAlg := algES256
-		if signer.Kind == "rsa" {
+		if s.d("u2f.credWiderCurve") {
+			signAlg = s.CredAlg // the verifier checks the signature with the credential algorithm's hash
+		} else if signer.Kind == "rsa" {
 			signAlg = algRS256
 		} else if signer.Crv == 2 {
 			signAlg = algES256 // P-384 key, SHA-256 digest as the verifier will use the credential algorithm's X.509 id
